@@ -280,3 +280,75 @@ package consensus
 //@   requires cs != nil && br != nil
 //@   callpre add: index >= 0 && index == vl_idx(cs.validators, sb_signer(ref(v)))
 //@   loop 0: invariant cs != nil
+
+// ---------------------------------------------------------------------------
+// C03: the write-ahead log recovers exactly the durable prefix
+// ---------------------------------------------------------------------------
+
+//@ property C03
+//@ spec be32At(a, p) = (uint32(a[p]) << 24) | (uint32(a[p + 1]) << 16) | (uint32(a[p + 2]) << 8) | uint32(a[p + 3])
+
+// frame format: crc32c(payload) | len(payload) | payload, all big endian
+//@ func (w *walWriter) WriteBytes(payload) (n, err)
+//@   arith bv
+//@   requires w != nil && w.buf != nil && outSane() && len(payload) < 0x100000000
+//@   modifies w.eldestUnsyncData, ghost(w_arr), ghost(w_len)
+//@   ensures [appended] err == nil ==> ghost(w_len) == old(ghost(w_len)) + 8 + len(payload) && outHas(old(ghost(w_len)) + 8, payload)
+//@   ensures [header] err == nil ==> be32At(ghost(w_arr), old(ghost(w_len))) == uint32(crc_of(seq(payload))) && be32At(ghost(w_arr), old(ghost(w_len)) + 4) == uint32(len(payload))
+//@   ensures [prefix] outKeeps(old(ghost(w_len)))
+
+// a record is returned only if the stream continues with a complete, CRC-correct frame; the
+// valid offset advances by exactly the frame length and is untouched on any error
+//@ func (w *walReader) ReadBytes() (payload, err)
+//@   arith bv
+//@   requires w != nil && w.reader != nil && 0 <= ghost(r_pos) && ghost(r_pos) < 0x1000000000000000 && 0 <= w.validOffset && w.validOffset < 0x1000000000000000
+//@   modifies w.validOffset, ghost(r_pos)
+//@   ensures [length] err == nil ==> uint32(len(payload)) == be32At(ghost(r_arr), old(ghost(r_pos)) + 4) && len(payload) < 0x100000000
+//@   ensures [crc] err == nil ==> uint32(crc_of(seq(payload))) == be32At(ghost(r_arr), old(ghost(r_pos)))
+//@   ensures [payload] err == nil ==> (forall j int :: {payload[j]} 0 <= j && j < len(payload) ==> payload[j] == ghost(r_arr)[old(ghost(r_pos)) + 8 + j])
+//@   ensures [consumed] err == nil ==> ghost(r_pos) == old(ghost(r_pos)) + 8 + len(payload)
+//@   ensures [offset] err == nil && len(payload) < 0xfffffff8 ==> w.validOffset == old(w.validOffset) + 8 + int64(len(payload))
+//@   ensures [noadvance] err != nil ==> w.validOffset == old(w.validOffset)
+
+// psum(S, k): total size of the first k segment files
+//@ smt int lemma (define-fun-rec psum ((S (Array Int Int)) (k Int)) Int (ite (<= k 0) 0 (+ (psum S (- k 1)) (select S (- k 1)))))
+//@ smt int func (declare-fun psum ((Array Int Int) Int) Int)
+//@ lemma psum_zero int : forall S intarr :: {psum(S, 0)} psum(S, 0) == 0
+//@ lemma psum_step int : forall S intarr, k int :: {psum(S, k + 1)} k >= 0 ==> psum(S, k + 1) == psum(S, k) + S[k]
+
+//@ smt all (declare-fun wal_file (Str Int) Str)
+//@ axiom wal_file_injective int : forall id str, a int, b int :: {wal_file(id, a), wal_file(id, b)} wal_file(id, a) == wal_file(id, b) ==> a == b
+//@ func fileFor(id, idx) (name)
+//@   trusted
+//@   pure
+//@   ensures name == wal_file(id, idx)
+
+//@ spec removed(w, i) = ghost(fs_removed)[wal_file(w.id, i)]
+//@ spec truncated(w, i) = ghost(fs_truncated)[wal_file(w.id, i)]
+//@ spec sizes(w) = arr(w.wi.fileSizes)
+// cutAt(w, k): the valid offset falls into segment k (relative index): everything before k is
+// strictly shorter than the offset, the first k+1 segments cover it
+//@ spec cutAt(w, k) = 0 <= k && k < len(w.wi.fileSizes) && psum(sizes(w), k) < w.validOffset && w.validOffset <= psum(sizes(w), k + 1)
+//@ spec cutAt0(w, k) = 0 <= k && k < len(w.wi.fileSizes) && (k == 0 || psum(sizes(w), k) < w.validOffset) && w.validOffset <= psum(sizes(w), k + 1) && (forall j int :: {w.wi.fileSizes[j]} 0 <= j && j < k ==> psum(sizes(w), j + 1) < w.validOffset)
+
+//@ func (w *walReader) Close() (err)
+//@   trusted
+//@   modifies w.files
+
+// repair: the segment that contains the valid offset is kept (truncated to the remaining bytes
+// if longer), every later segment is removed, earlier segments are not touched
+//@ func (w *walReader) CloseAndRepair() (err)
+//@   use psum_zero, psum_step, wal_file_injective
+//@   requires w != nil && w.wi != nil && off(w.wi.fileSizes) == 0 && w.validOffset >= 0 && w.validOffset < 0x1000000000000000
+//@   requires w.wi.headIdx < 0x1000000000000000 && w.wi.tailIdx < 0x1000000000000000 && len(w.wi.fileSizes) == w.wi.tailIdx - w.wi.headIdx + 1
+//@   requires forall j int :: 0 <= j && j < len(w.wi.fileSizes) ==> 0 <= w.wi.fileSizes[j] && w.wi.fileSizes[j] < 0x100000000000
+//@   requires forall i int :: !removed(w, i) && !truncated(w, i)
+//@   modifies w.files, ghost(fs_removed), ghost(fs_truncated), ghost(fs_trunc_size)
+//@   ensures [later_removed] err == nil ==> (forall k int, i int :: cutAt0(w, k) && w.wi.headIdx + k < i && i <= w.wi.tailIdx ==> removed(w, i))
+//@   ensures [cut_kept] forall k int :: cutAt0(w, k) ==> !removed(w, w.wi.headIdx + k)
+//@   ensures [earlier_kept] forall k int, i int :: cutAt0(w, k) && i < w.wi.headIdx + k ==> !removed(w, i) && !truncated(w, i)
+//@   ensures [cut_truncated] err == nil ==> (forall k int :: cutAt0(w, k) && w.validOffset < psum(sizes(w), k + 1) ==> truncated(w, w.wi.headIdx + k) && ghost(fs_trunc_size)[wal_file(w.id, w.wi.headIdx + k)] == w.validOffset - psum(sizes(w), k))
+//@   loop 0: invariant -1 <= rangeindex && rangeindex < len(w.wi.fileSizes) && idx == w.wi.headIdx + rangeindex + 1 && left == w.validOffset - psum(sizes(w), rangeindex + 1)
+//@   loop 0: invariant forall j int :: {w.wi.fileSizes[j]} 0 <= j && j <= rangeindex ==> psum(sizes(w), j + 1) < w.validOffset
+//@   loop 0: invariant forall i int :: !removed(w, i) && !truncated(w, i)
+//@   loop 1: invariant idx + 1 <= i && i <= w.wi.tailIdx + 1 && (forall q int :: idx < q && q < i ==> removed(w, q)) && (forall q int :: q <= idx ==> !removed(w, q))
